@@ -56,6 +56,9 @@ def grids():
     G = {}
     G["fast_random_hypergraph"] = [((8, [0.4, 0.2]), {}), ((6, 0.5), {"order": 2}), ((6, [1.0, 0.3, 0.0]), {}),
                                    ((5, [0.0, 1.0]), {}), ((1, [0.5]), {}), ((3, [0.5, 0.5, 0.5]), {})]
+    # tiny positive probabilities over a huge candidate set (a handful of edges among billions of candidates): the regime
+    # where skip lengths are astronomically large
+    G["fast_random_hypergraph"] += [((200, [5e-9]), {"order": [4]}), ((3000, [3e-7]), {"order": 1})]
     G["random_hypergraph"] = [((6, [0.4, 0.3]), {}), ((5, [1.0, 0.0]), {}), ((5, [0.0, 0.5]), {}), ((4, [0.5]), {"order": 2})]
     G["chung_lu_hypergraph"] = [(({i: 2 for i in range(6)}, {i: 3 for i in range(4)}), {}),
                                 (({i: 1 + i % 3 for i in range(6)}, {i: 2 for i in range(4)}), {})]  # sums differ (warns)
@@ -76,6 +79,8 @@ def grids():
                                            ((8, 2, 2.0), {"p_type": "degree"}), ((6, 2, 1.5), {"p_type": "degree", "multiedges": True}),
                                            ((5, 2, 1.0), {}), ((5, 2, 0.0), {}), ((5, 3, 1.0), {"multiedges": True}),
                                            ((5, 5, 0.5), {}), ((6, 2, 0.0), {"p_type": "degree"})]
+    G["uniform_erdos_renyi_hypergraph"] += [((300, 5, 1.0), {"p_type": "degree"}), ((2000, 3, 2e-9), {})]
+    G["uniform_HPPM"] += [((1000, 4, 5, 0.5), {})]
     G["random_simplicial_complex"] = [((7, [0.4, 0.3]), {}), ((6, [0.5, 0.5, 0.5]), {}), ((5, [1.0, 0.5]), {}), ((5, [0.0, 0.5]), {})]
     G["random_flag_complex"] = [((7, 0.5), {"max_order": 3}), ((6, 1.0), {"max_order": 2}), ((6, 0.0), {"max_order": 2}),
                                 ((6, 0.6), {"max_order": None})]
